@@ -2,6 +2,7 @@ package checks
 
 import (
 	"bytes"
+	"encoding/binary"
 	"fmt"
 	"math/big"
 
@@ -69,6 +70,7 @@ func c16Gen(tier string, seed int64) []core.Case {
 	add("ints-exhaustive", "all", 3, nil)
 	add("tagged-exhaustive", "tags-x-tuples", 4, nil)
 	add("cross-function", "bytes-vs-ints-vs-tagged", 2, nil)
+	add("boundary-shift", "embedded-framing", 3, nil)
 	n := tierN(tier, 2, 8)
 	for i := 0; i < n; i++ {
 		add("long-random", fmt.Sprint(i), 2, core.P{"i": i, "n": tierN(tier, 20000, 100000)})
@@ -92,6 +94,8 @@ func c16Run(c core.Case, env *core.Env) core.Result {
 		c16Tagged(&r)
 	case "cross-function":
 		c16Cross(&r)
+	case "boundary-shift":
+		c16Shift(&r)
 	case "long-random":
 		c16Long(&r, env.Seed, c.P.Int("i"), c.P.Int("n"))
 	case "decommit-edits":
@@ -588,4 +592,61 @@ func c16Forged(r *core.Result, seed int64) {
 	parse("one element", []*big.Int{big1}, true)
 	r.NonTrivial = r.Obs["forged_inputs"] > 10
 	r.Sample = map[string]any{"kind": "builder-forged", "inputs": r.Obs["forged_inputs"], "length_prefix_values": []string{"2^63", "2^64-1", "2^64", "2^64+2", "2^200", "2^63-1", "MaxPartSize+1", "2^40"}}
+}
+
+// c16Shift moves the split point of a tuple while embedding, at the old split point, the bytes a weaker framing would put
+// between two elements: the delimiter alone, or the delimiter / an 8-byte integer (little or big endian) in either
+// order, the integer ranging over small constants (element count, element length, 0..16). Whatever the framing really
+// is, (x|sep|y, z) and (x, y|sep|z) are different tuples and must hash differently - with a framing that does not bind
+// the element lengths (constant, count or missing length field) one of the separators reproduces it and they collide.
+func c16Shift(r *core.Result) {
+	elems := [][]byte{{'x'}, {1}, {'$'}, {0x24, 0x24}, {1, 0, 0, 0, 0, 0, 0, 0}, []byte("0123456789abcdef")}
+	le := func(k uint64) []byte { b := make([]byte, 8); binary.LittleEndian.PutUint64(b, k); return b }
+	be := func(k uint64) []byte { b := make([]byte, 8); binary.BigEndian.PutUint64(b, k); return b }
+	cat := func(parts ...[]byte) []byte {
+		var out []byte
+		for _, p := range parts {
+			out = append(out, p...)
+		}
+		return out
+	}
+	seps := [][]byte{{'$'}, {}}
+	for k := uint64(0); k <= 40; k++ {
+		seps = append(seps, cat([]byte{'$'}, le(k)), cat([]byte{'$'}, be(k)), cat(le(k), []byte{'$'}), cat(be(k), []byte{'$'}), le(k), be(k))
+	}
+	bset, iset, tset := newDigestSet(r), newDigestSet(r), newDigestSet(r)
+	toInts := func(t [][]byte) []*big.Int {
+		out := make([]*big.Int, len(t))
+		for i := range t {
+			out[i] = new(big.Int).SetBytes(t[i])
+		}
+		return out
+	}
+	hashAll := func(t [][]byte) {
+		bset.add(common.SHA512_256(t...), fmt.Sprintf("%x", t), "SHA512_256")
+		// integers drop leading zero bytes: only tuples whose elements start with a non-zero byte are distinct as integers
+		for _, e := range t {
+			if len(e) == 0 || e[0] == 0 {
+				return
+			}
+		}
+		ti := toInts(t)
+		iset.add(common.SHA512_256i(ti...).FillBytes(make([]byte, 32)), intsKey(ti), "SHA512_256i")
+		tset.add(common.SHA512_256i_TAGGED([]byte("tag"), ti...).FillBytes(make([]byte, 32)), intsKey(ti), "SHA512_256i_TAGGED")
+	}
+	for _, x := range elems {
+		for _, y := range elems {
+			for _, z := range elems {
+				hashAll([][]byte{x, y, z})
+				for _, sep := range seps {
+					hashAll([][]byte{cat(x, sep, y), z})
+					hashAll([][]byte{x, cat(y, sep, z)})
+					hashAll([][]byte{cat(x, sep, y, sep, z)})
+					r.Count("shifted_pairs", 1)
+				}
+			}
+		}
+	}
+	r.NonTrivial = r.Obs["shifted_pairs"] > 1000
+	r.Sample = map[string]any{"kind": "boundary-shift", "separators": len(seps), "shifted_pairs": r.Obs["shifted_pairs"], "distinct_inputs_hashed": r.Obs["digests"]}
 }
